@@ -181,6 +181,20 @@ def _diff_components(ctx, eqs):
     return bad
 
 
+def _results_eq(it, a, b, memo_old, memo_ref):
+    """result of the body vs result of the reference: an object of the pre-state corresponds to
+    its copy in the reference's world; everything else is compared by value"""
+    if isinstance(a, Ref) and isinstance(b, Ref) and isinstance(it.ctx.obj(a), HObj):
+        old = memo_old.get(a.oid)
+        if old is not None:
+            cp = memo_ref.get(old.oid)
+            return cp is not None and cp.oid == b.oid
+        return False
+    if isinstance(a, tuple) and isinstance(b, tuple) and len(a) == len(b):
+        return b_and(*[_results_eq(it, x, y, memo_old, memo_ref) for x, y in zip(a, b)])
+    return ops.values_eq(it, a, b)
+
+
 def contract_driver(program, c, findings=()):
     target = program.func(c.target)
     policy = make_policy(program, c.policy)
@@ -249,7 +263,7 @@ def contract_driver(program, c, findings=()):
                 same_out = exc == exc2
                 res_eq = True
                 if same_out and exc is None:
-                    res_eq = ops.values_eq(it, result, r2)
+                    res_eq = _results_eq(it, result, r2, memo_old, memo_ref)
                 eqs = []
                 if same_out and view is not None:
                     va = view_pairs(it, it.call_function(view, [vals[order[0]]], {}))
